@@ -497,3 +497,39 @@ func (p *Prog) instrDominatesG(root *ssa.Function, a, b ssa.Instruction) bool {
 	}
 	return instrDominates(a, b)
 }
+
+// sliceWithArgs: the backward slice of v, where a parameter of another function that the slice reaches is
+// replaced by the arguments of that function's calls inside caller (a struct built by a helper from what it is
+// handed depends on what the caller handed it).
+func sliceWithArgs(v ssa.Value, caller *ssa.Function, ctrl bool) map[ssa.Value]bool {
+	out := map[ssa.Value]bool{}
+	work := []ssa.Value{v}
+	done := map[ssa.Value]bool{}
+	for len(work) > 0 {
+		x := work[len(work)-1]
+		work = work[:len(work)-1]
+		if done[x] {
+			continue
+		}
+		done[x] = true
+		for y := range backSliceOpt(x, nil, ctrl) {
+			out[y] = true
+			par, ok := y.(*ssa.Parameter)
+			if !ok || par.Parent() == caller || par.Parent() == nil {
+				continue
+			}
+			idx := -1
+			for i, pp := range par.Parent().Params {
+				if pp == par {
+					idx = i
+				}
+			}
+			allInstrs(caller, true, func(ins ssa.Instruction) {
+				if call, ok := ins.(*ssa.Call); ok && call.Call.StaticCallee() == par.Parent() && idx >= 0 && idx < len(call.Call.Args) {
+					work = append(work, call.Call.Args[idx])
+				}
+			})
+		}
+	}
+	return out
+}
